@@ -1119,7 +1119,12 @@ func (r *Runner) readLine(ctx context.Context, raw bool) ([]byte, error) {
 
 // cancelStdinReads makes blocked reads on the runner's stdin fail once ctx is
 // cancelled, via a read deadline. The returned function must be called once
-// the reads are done, to stop doing that and to reset the deadline.
+// the reads are done, to stop doing that.
+//
+// The deadline is not reset once the reads are done, as other goroutines,
+// such as background jobs, may still be reading the same file under the
+// cancelled context; resetting it would leave them blocked for good.
+// [Runner.Run] clears a deadline left behind by an earlier cancelled context.
 func (r *Runner) cancelStdinReads(ctx context.Context) (done func()) {
 	stdin := r.stdin
 	stopc := make(chan struct{})
@@ -1129,10 +1134,9 @@ func (r *Runner) cancelStdinReads(ctx context.Context) (done func()) {
 	})
 	return func() {
 		if !stop() {
-			// The AfterFunc was started.
-			// Wait for it to complete, and reset the file's deadline.
+			// The AfterFunc was started; wait for it to complete,
+			// so that it cannot interfere with a later read.
 			<-stopc
-			stdin.SetReadDeadline(time.Time{})
 		}
 	}
 }
